@@ -40,7 +40,33 @@ def gen_ident(rng):
     return s
 
 
+# character sequences that mean something to a replacement / template facility of either language (String.prototype.replace and
+# replaceAll patterns, re.sub group references, % and str.format fields): a column name is data wherever the query text is
+# taken apart and re-assembled, so a["US$$"] must stay the column called US$$ (seeded change C09-14: replaceAll collapsed $$)
+META = ['$$', '$&', '$`', "$'", '$$', '$&', '$1', '$0', '$<n>', '${x}', '\\1', '\\g<0>', '%s', '%(n)s', '%%', '{}', '{0}', '{{', '}}']
+# what the facility would turn the sequence into: a sibling column of that name makes "reads another column" out of "reads nothing"
+META_COLLAPSED = {'$$': '$', '%%': '%', '{{': '{', '}}': '}', '$&': '', '$`': '', "$'": '', '{}': '', '\\1': '', '$1': ''}
+
+
+def gen_meta_name(rng):
+    parts = [gen_ident(rng)[:rng.randint(0, 3)]]
+    for _ in range(rng.choice([1, 1, 2, 3])):
+        parts.append(rng.choice(META))
+        parts.append(gen_ident(rng)[:rng.randint(0, 2)] if rng.random() < 0.6 else rng.choice(['', ' ', '$', '-']))
+    return ''.join(parts)
+
+
+def meta_sibling(rng, n):
+    cands = [m for m in META_COLLAPSED if m in n]
+    if not cands:
+        return None
+    m = rng.choice(sorted(cands))
+    return n.replace(m, META_COLLAPSED[m])
+
+
 def gen_name(rng, allow_lf=True):
+    if rng.random() < 0.1:
+        return gen_meta_name(rng)
     if rng.random() < 0.45:
         return gen_ident(rng)
     if rng.random() < 0.15:
@@ -57,15 +83,54 @@ def gen_name(rng, allow_lf=True):
 def gen_names(rng, allow_lf=True, nonempty=False, ci_distinct=False, idents=False):
     k = rng.randint(1, 5)
     out = []
+
+    def fresh(n):
+        if '___RBQL' in n or '\r' in n or (nonempty and not n):
+            return False
+        key = n.lower() if ci_distinct else n
+        return key not in [(x.lower() if ci_distinct else x) for x in out]
     while len(out) < k:
         n = ('c' + gen_ident(rng) + str(len(out))) if idents else gen_name(rng, allow_lf)
-        if '___RBQL' in n or '\r' in n or (nonempty and not n):
-            continue
-        key = n.lower() if ci_distinct else n
-        if key in [(x.lower() if ci_distinct else x) for x in out]:
+        if not fresh(n):
             continue
         out.append(n)
+        if not idents and len(out) < k and any(m in n for m in META_COLLAPSED) and rng.random() < 0.5:
+            sib = meta_sibling(rng, n)
+            if sib is not None and fresh(sib):
+                out.insert(rng.randrange(len(out) + 1), sib)
     return out
+
+
+def gen_sqlite_schema(rng, names, rows):
+    """how the sqlite table that holds (names, rows) is declared. "sqlite columns" are the columns of `SELECT *` over the table in
+    that order, however each of them came to be: an ordinary column (with or without a declared type), a generated column
+    (VIRTUAL / STORED; the schema pragma table_info does not list those - seeded change C09-13), or a column of a VIEW (the name is
+    the alias). The values stay TEXT: a generated column copies an ordinary column or is a constant, and `rows` is rewritten
+    accordingly (harness-side statement of what sqlite computes; the driver reads the table back through sqlite3 itself and reports
+    a 'harness_spec_mismatch' if names / rows are not what `SELECT *` returns)."""
+    n = len(names)
+    x = rng.random()
+    if x < 0.35:
+        return None                                         # CREATE TABLE t ("name" TEXT, ...) as before
+    cols = [{'role': 'plain', 'type': rng.choice(['TEXT', 'TEXT', '', 'BLOB'])} for _ in range(n)]      # (no numeric affinity: the cells stay strings)
+    plain = list(range(n))
+    if x < 0.85 and n >= 2:
+        k = rng.randint(1, n - 1)
+        for j in rng.sample(range(n), k):
+            plain.remove(j)
+        for j in range(n):
+            if j in plain:
+                continue
+            stored = rng.random() < 0.5
+            if rng.random() < 0.7:
+                cols[j] = {'role': 'gen', 'stored': stored, 'src': rng.choice(plain)}
+                for r_ in rows:
+                    r_[j] = r_[cols[j]['src']]
+            else:
+                cols[j] = {'role': 'gen', 'stored': stored, 'const': 'g%d' % j}
+                for r_ in rows:
+                    r_[j] = cols[j]['const']
+    return {'cols': cols, 'view': rng.random() < (0.3 if plain != list(range(n)) else 1.0)}
 
 
 def gen_rows(rng, width, ragged=False):
@@ -124,6 +189,7 @@ def build_cases(ctx):
             rows = gen_rows(rng, len(names), ragged=kind in ('table', 'csv') and rng.random() < 0.2)
             if kind in ('pandas', 'pandas_direct', 'sqlite') and not rows:
                 rows = [[rng.choice(SAFE_VALUES) for _ in names]]
+            schema = gen_sqlite_schema(rng, names, rows) if kind == 'sqlite' else None
             i = rng.randrange(len(names))
             styles = ['dq', 'sq']
             if is_ident(names[i]) and not keyword.iskeyword(names[i]):
@@ -135,7 +201,7 @@ def build_cases(ctx):
                 names_arg = names
             flag = rng.random() < 0.5
             mod = rng.choice(MODS)
-            protos.append({'src': kind, 'names': names, 'names_arg': names_arg, 'rows': rows, 'i': i, 'style': style, 'flag': flag, 'mod': mod})
+            protos.append({'src': kind, 'names': names, 'names_arg': names_arg, 'rows': rows, 'i': i, 'style': style, 'flag': flag, 'mod': mod, 'schema': schema})
     # variable texts from the model's escape
     need = [(p['names'][p['i']], '"' if p['style'] == 'dq' else "'") for p in protos]
     escd = esc_model(need)
@@ -179,6 +245,8 @@ def build_cases(ctx):
             c.update(kind='table', records=p['rows'], names=p['names_arg'], normalize=True, mkind=1)
         else:
             c.update(kind=src, records=p['rows'], names=p['names'], mkind=3)
+            if p.get('schema') is not None:
+                c['schema'] = p['schema']
         cases.append(c)
     return cases
 
@@ -505,8 +573,8 @@ def extended_search(ctx, langs):
 
 def run_correspondence(ctx):
     ctx.rule = ('headers of 1-5 distinct names (identifiers and arbitrary strings over printable ASCII, quotes, backslash, brackets, '
-                'TAB, LF, non-ASCII), every column position, a.name / a["name"] / a[\'name\'] / bare name, sources list / direct / '
-                'CSV iterator / query_csv (+JOIN) / pandas / sqlite, caller flag x WITH modifier; non-trivial = distinct '
+                'TAB, LF, non-ASCII; 10% of the names carry replacement / template sequences such as $$ $& \\1 %s {} with the collapsed name as a sibling column), every column position, a.name / a["name"] / a[\'name\'] / bare name, sources list / direct / '
+                'CSV iterator / query_csv (+JOIN) / pandas / sqlite (plain, typed and generated columns, views), caller flag x WITH modifier; non-trivial = distinct '
                 '(source, header, column, variable style, flag, modifier) whose probed name is not a plain identifier or whose '
                 'modifier / flag makes the first line a header')
     # ---- public path
@@ -526,6 +594,12 @@ def run_correspondence(ctx):
         if e[0].get('has_header'):
             ctx.stat('effective_header_on')
         n = c['names_all'][c['col']]
+        if any(m in n for m in META):
+            ctx.stat('probed_name_has_template_sequence')
+        if c.get('schema') is not None:
+            ctx.stat('sqlite_generated_columns' if any(x['role'] == 'gen' for x in c['schema']['cols']) else 'sqlite_typed_columns')
+            if c['schema']['view']:
+                ctx.stat('sqlite_view')
         if not is_ident(n) or e[0].get('has_header'):
             ctx.nontriv((c['src'], tuple(c['names_all']), c['col'], c['style'], c['flag'], c['mod']))
     ctx.sample_safe(lambda: {'case': {k: cases[0][k] for k in ('src', 'queries', 'records', 'flag', 'mod')}, 'model': expc[0], 'implementation': got[0]})
